@@ -21,7 +21,7 @@ ID = "C04"
 LEVEL = "model_checking"
 MIN_OUTCOMES = 2
 MANIFEST = {
-    'text': 'Complete enumeration of the stated content table (11 filler flavours - text to the left and right of every occurrence and on the lines around it - incl. non-ASCII, astral, control and regex characters and text whose length changes under Unicode normalisation, case mapping or stripping of invisible characters x 6 line-ending regimes x final newline x BOM x blank edge lines x arrangements incl. occurrences at the very start/end of a file and single-line files x v2/legacy patterns; projects in which one glob entry is shared by three files and one of them is named again by another entry, with decoy text in the siblings; the config file itself carries non-ASCII text and, in CRLF projects, CRLF line endings): each project is updated by the real CLI in-process and, for the reduced table, again by `python -m bumpver` under LC_ALL=C with UTF-8 mode off; file bytes are compared with the skeleton they were constructed from, so any byte outside a matched span that changes is detected; bystander files keep bytes and mtime. A further chunk commits, tags and pushes through the fake VCS with every VCS step and each hook failing in turn after the rewrite, over all six line-ending regimes: each file must then be byte-identical either to what it was or to what the fault-free update writes.',
+    'text': 'Complete enumeration of the stated content table (11 filler flavours - text to the left and right of every occurrence and on the lines around it - incl. non-ASCII, astral, control and regex characters and text whose length changes under Unicode normalisation, case mapping or stripping of invisible characters x 6 line-ending regimes x final newline x BOM x blank edge lines x arrangements incl. occurrences at the very start/end of a file and single-line files x v2/legacy patterns; projects in which one glob entry is shared by three files and one of them is named again by another entry, with decoy text in the siblings; the config file itself carries non-ASCII text and, in CRLF projects, CRLF line endings): each project is updated by the real CLI in-process and, for the reduced table, again by `python -m bumpver` under LC_ALL=C with UTF-8 mode off; file bytes are compared with the skeleton they were constructed from, so any byte outside a matched span that changes is detected; bystander files keep bytes and mtime. A further chunk commits, tags and pushes through the fake VCS with every VCS step and each hook failing in turn after the rewrite, over all six line-ending regimes: each file must then be byte-identical either to what it was or to what the fault-free update writes. Another chunk starts `update` in sub-directories that hold files named like configured ones (three config formats): files the configuration does not name keep every byte.',
     'note': 'code points outside the alphabet and files beyond a few hundred bytes are not covered',
     'technique': 'exhaustive enumeration of a bounded file-content space executed on the real CLI (two locales), by-construction byte oracle',
 }
@@ -62,6 +62,7 @@ def explore(tier, seed):
     chunks += [("legacy", tier, i, fill) for i in range(len(legacy_cases())) for fill in sorted(projgen.FILL)]
     chunks += [("locale", tier, i, None) for i in range(4)]
     chunks += [("vcsfail", tier, i, None) for i in range(2)]
+    chunks.append(("subdir", tier, 0, None))
     return pool.run_chunks(run_chunk, chunks)
 
 
@@ -151,10 +152,49 @@ def run_chunk(chunk):
             legacy_project(st, label, vp, oldv, newv, lid, arrangement, f)
     elif kind == "vcsfail":
         failing_vcs_step(st, tier, idx)
+    elif kind == "subdir":
+        run_from_subdirectory(st)
     else:
         locale_pass(st, tier, idx)
     os.chdir("/")
     return st
+
+
+def run_from_subdirectory(st):
+    """`update` started in a sub-directory of the project (which has no configuration of its own) that holds files NAMED like configured
+    ones: whether the command refuses or finds the project's configuration, the paths of the configuration are the project's - the
+    look-alike files of the sub-directory are not configured and keep every byte."""
+    for fmt in ("bumpver.toml", "setup.cfg", "pyproject.toml"):
+        for sub in ("docs", "docs/api", "src/pkg"):
+            for regime, eol in (("LF", "\n"), ("CRLF", "\r\n")):
+                body = ("# d\u00e9mo\u20ac" + eol + "ver=1.2.3;" + eol + "end" + eol).encode("utf-8")
+                cfg = pt.config_text(fmt, "MAJOR.MINOR.PATCH", "1.2.3", [("README.md", ["ver={version};"]), ("src/*.txt", ["ver={version};"])])
+                tree = {fmt: cfg.encode(), "README.md": body, "src/a.txt": body, "bystander.txt": body,
+                        sub + "/README.md": body, sub + "/src/a.txt": body, sub + "/notes.txt": body}
+                base = pool.fresh_dir("c04sub")
+                os.chdir(base)
+                world.write_tree(tree)
+                os.chdir(os.path.join(base, sub))
+                try:
+                    o = world.cli("update", "--no-fetch", "--ignore-vcs-tag", "--patch")
+                finally:
+                    os.chdir(base)
+                after = world.read_tree(".")
+                st.evaluations += 1
+                st.transitions += 1
+                case = {"subdir": sub, "format": fmt, "regime": regime}
+                st.observe((case, o.exit, o.crashed, sorted(after.items())))
+                st.state("subdir", fmt, sub, regime)
+                st.nontriv("subdir", fmt, sub, regime)
+                touched = sorted(k for k in set(tree) | set(after) if k.startswith(sub + "/") and after.get(k) != tree.get(k))
+                other = sorted(k for k in set(tree) | set(after) if not k.startswith(sub + "/") and k not in (fmt, "README.md", "src/a.txt") and after.get(k) != tree.get(k))
+                if touched or other:
+                    st.outcomes["violation"] += 1
+                    st.violation(f"C04:unconfigured-file-rewritten:update-started-in-a-sub-directory:{fmt}", case, {"files": touched + other, "exit": o.exit, "log": o.log[-2:]})
+                else:
+                    st.validated += 1
+                    st.outcomes["subdir:look-alike-files-kept" + (":refused" if o.exit != 0 else ":updated")] += 1
+    os.chdir("/")
 
 
 VCS_FAULTS = (("add", 0), ("commit", 0), ("commit", 0, "error: gpg failed to sign the data\nfatal: failed to write commit object\n"), ("tag", 0), ("push", 0),
@@ -313,6 +353,9 @@ def replay(case, st):
         if case.get("locale"):
             for part in range(4):
                 locale_pass(st, "thorough", part)
+            return
+        if case.get("subdir"):
+            run_from_subdirectory(st)
             return
         if case.get("vcs_fault"):
             for tier in ("quick", "thorough"):
